@@ -76,6 +76,7 @@ Definition lewis_factor (g : gear) : res (num A) :=
   | _ => Err AttributeError
   end.
 
+Definition k067 : num A := lit (67 # 100) 0x1.570a3d70a3d71p-1%float.     (* the literal 0.67 *)
 (** compute_bending_stress *)
 Definition bending_stress (g : gear) (r : option role) (mate : option gear) (ft : qty) : res qty :=
   y <- lewis_factor g ;;
@@ -85,7 +86,7 @@ Definition bending_stress (g : gear) (r : option role) (mate : option gear) (ft 
       dw <- the (g_dref mt) ;; hw <- the (g_helix mt) ;;
       a <- q_rmul pi dw ;; s <- qsin hw ;; b <- q_muln a s ;; np <- q_divn b (of_Z (g_n g)) ;;
       fw <- the (g_face g) ;;
-      lim <- q_rmul (lit (67 # 100) 0x1.570a3d70a3d71p-1%float) dw ;;
+      lim <- q_rmul k067 dw ;;
       lt <- q_lt lim fw ;;
       let eff := if lt then lim else fw in            (* min(face_width, 0.67 * d_worm) *)
       ar <- q_mulq np eff ;; st <- q_divq ft ar ;; q_divn st y
